@@ -94,7 +94,7 @@ def one_dir(ctx, res, rng, d):
                     ids.setdefault(v, []).append(r["path"])
                 if k == "RID":
                     rids.setdefault(v, []).append(r["path"])
-        lctx = {"pages": [p[:-3] for p in files] + ["nosuch", "sub/new"], "zids": sorted(zid_page), "own_zids": sorted(zid_page)[:5],
+        lctx = {"pages": [p[:-3] for p in files] + ["nosuch", "sub/new", "notes.v2", "media/talk.m4a", "zorg-v1.2"], "zids": sorted(zid_page), "own_zids": sorted(zid_page)[:5],
                 "gids": ["g1", "g2", "G3", "g3", "G1", "nogid"], "rids": ["r1", "r2", "R1", "norid"]}
         # the page holding the line lives at the root of the notes directory or in a sub-directory that also holds a page
         # named like a link target missing at the root (`[[nosuch]]` must still mean <notes dir>/nosuch.zo)
